@@ -166,6 +166,21 @@ fn observers_ok<T: maligned::Alignment>(c: &mut AlignedCursor<T>) -> bool {
     let mut ok = c.is_empty() == (l == 0) && bytes.len() == l && c.as_bytes_mut().to_vec() == bytes;
     let mut k = c.clone();
     ok &= k.len() == l && k.position() == c.position() && k.as_bytes() == &bytes[..];
+    // `clone_from` onto a cursor that holds more (non-zero) data: afterwards the destination behaves like the source,
+    // in particular a write past the end zero-fills the gap
+    {
+        use std::io::Write;
+        let mut dst = AlignedCursor::<T>::new();
+        dst.write_all(&vec![0xFFu8; l + 3 * core::mem::size_of::<T>() + 5]).unwrap();
+        dst.clone_from(c);
+        ok &= dst.len() == l && dst.position() == c.position() && dst.as_bytes() == &bytes[..];
+        dst.set_position(l + 2 * core::mem::size_of::<T>() + 1);
+        dst.write_all(&[0x5A]).unwrap();
+        let mut want = bytes.clone();
+        want.extend(std::iter::repeat(0u8).take(2 * core::mem::size_of::<T>() + 1));
+        want.push(0x5A);
+        ok &= dst.as_bytes() == &want[..];
+    }
     let (v, n) = k.into_parts();
     ok &= n == l && v.len() * core::mem::size_of::<T>() >= l;
     let raw = unsafe { core::slice::from_raw_parts(v.as_ptr() as *const u8, l.min(v.len() * core::mem::size_of::<T>())) };
@@ -208,6 +223,15 @@ use crate::{FromTerm, Term};
 pub struct Wrap<A> {
     pub a: A,
     pub tail: u16,
+}
+
+macro_rules! stamped_struct {
+    ( $(#[$m:meta])* $n:ident < $p:ident > { $($f:ident : $t:ty),* $(,)? } ) => { $(#[$m])* pub struct $n<$p> { $(pub $f : $t),* } };
+}
+stamped_struct! {
+    /// The same structure as `Wrap`, stamped out by a `macro_rules!`: the derive sees the field types inside invisible groups.
+    #[derive(Epserde, Debug, Clone)]
+    WrapM<A> { a: A, tail: u16 }
 }
 
 /// A generic enum holding a slice / iterator / vector in a type-parameter field of a variant.
@@ -300,6 +324,7 @@ pub struct SliceEntry {
     pub vec_name: fn() -> String,
     pub wrap_name: fn() -> String,
     pub wrape_name: fn() -> String,
+    pub wrapm_name: fn() -> String,
     pub ser3: fn(&Term) -> String,
     pub iter: fn(&Term, usize) -> String,
     /// serialize the slice reference (and a structure holding it) through a faulty writer while the
@@ -354,12 +379,15 @@ where
     for<'a> Wrap<&'a [T]>: Serialize,
     WrapE<Vec<T>>: Serialize,
     for<'a> WrapE<&'a [T]>: Serialize,
+    WrapM<Vec<T>>: Serialize,
+    for<'a> WrapM<&'a [T]>: Serialize,
 {
     SliceEntry {
         rust_name,
         vec_name: || core::any::type_name::<Vec<T>>().to_string(),
         wrap_name: || core::any::type_name::<Wrap<Vec<T>>>().to_string(),
         wrape_name: || core::any::type_name::<WrapE<Vec<T>>>().to_string(),
+        wrapm_name: || core::any::type_name::<WrapM<Vec<T>>>().to_string(),
         ser3: |t| {
             let Some(v) = crate::catch(|| Vec::<T>::from_term(t)) else { return "badterm".into() };
             let s: &[T] = &v;
@@ -375,8 +403,11 @@ where
             let eu = ser_hex(&WrapE::<&[T]>::Empty);
             let euv = ser_hex(&WrapE::<Vec<T>>::Empty);
             // the source must be intact afterwards
+            let mv = ser_hex(&WrapM { a: Vec::<T>::from_term(t), tail: 0xBEEF });
+            let ms = ser_hex(&WrapM { a: s, tail: 0xBEEF });
+            let mi = ser_hex(&WrapM { a: SerIter::new(v.iter()), tail: 0xBEEF });
             let again = ser_hex(&v);
-            format!("ser3 V:{} S:{} I:{} WV:{} WS:{} WI:{} EV:{} ES:{} EI:{} EU:{} EUV:{} intact={}", vv, ss, ii, wv, ws, wi, ev, es, ei, eu, euv, again == vv)
+            format!("ser3 V:{} S:{} I:{} WV:{} WS:{} WI:{} EV:{} ES:{} EI:{} EU:{} EUV:{} MV:{} MS:{} MI:{} intact={}", vv, ss, ii, wv, ws, wi, ev, es, ei, eu, euv, mv, ms, mi, again == vv)
         },
         wfails: wfails_generic::<T>,
         iter: |t, announced| {
@@ -404,12 +435,15 @@ where
     for<'a> Wrap<&'a [T]>: Serialize,
     WrapE<Vec<T>>: Serialize,
     for<'a> WrapE<&'a [T]>: Serialize,
+    WrapM<Vec<T>>: Serialize,
+    for<'a> WrapM<&'a [T]>: Serialize,
 {
     SliceEntry {
         rust_name,
         vec_name: || core::any::type_name::<Vec<T>>().to_string(),
         wrap_name: || core::any::type_name::<Wrap<Vec<T>>>().to_string(),
         wrape_name: || core::any::type_name::<WrapE<Vec<T>>>().to_string(),
+        wrapm_name: || core::any::type_name::<WrapM<Vec<T>>>().to_string(),
         ser3: |t| {
             let Some(v) = crate::catch(|| Vec::<T>::from_term(t)) else { return "badterm".into() };
             let s: &[T] = &v;
@@ -421,8 +455,10 @@ where
             let es = ser_hex(&WrapE::Held(7, s));
             let eu = ser_hex(&WrapE::<&[T]>::Empty);
             let euv = ser_hex(&WrapE::<Vec<T>>::Empty);
+            let mv = ser_hex(&WrapM { a: Vec::<T>::from_term(t), tail: 0xBEEF });
+            let ms = ser_hex(&WrapM { a: s, tail: 0xBEEF });
             let again = ser_hex(&v);
-            format!("ser3 V:{} S:{} I:- WV:{} WS:{} WI:- EV:{} ES:{} EI:- EU:{} EUV:{} intact={}", vv, ss, wv, ws, ev, es, eu, euv, again == vv)
+            format!("ser3 V:{} S:{} I:- WV:{} WS:{} WI:- EV:{} ES:{} EI:- EU:{} EUV:{} MV:{} MS:{} MI:- intact={}", vv, ss, wv, ws, ev, es, eu, euv, mv, ms, again == vv)
         },
         wfails: wfails_generic::<T>,
         iter: |_, _| "iter -".into(),
@@ -543,7 +579,17 @@ pub fn wfail_generic<T: Serialize>(v: &T, spec: &str) -> String {
         };
     }
     let mut w = parse_wspec(spec);
-    let res = crate::catch(|| v.serialize(&mut w));
+    // `sch=1`: the same sink under `serialize_with_schema` (the recording writer sits between the serializer and the sink)
+    let with_schema = spec.split(',').any(|kv| kv == "sch=1");
+    let res = crate::catch(|| {
+        if with_schema {
+            let r = v.serialize_with_schema(&mut w).map(|_| ());
+            let n = w.acc.len();
+            r.map(|_| n)
+        } else {
+            v.serialize(&mut w)
+        }
+    });
     let r = match res {
         None => "panic".to_string(),
         Some(Ok(n)) => format!("ok {}", n),
@@ -814,6 +860,98 @@ fn count_maps() -> usize {
 /// Load `bytes` (a corrupted / truncated / foreign file) `reps` times with the given loader and report
 /// the growth of live heap bytes and of the number of memory mappings.
 /// One load of a file holding exactly `bytes` through a file-backed entry point: outcome and error kind.
+// ------------------------------------------------------------------------------------------------
+// very large files (tens of MiB): values built here from a size, the model's answer does not depend on the size
+
+fn big_one<T>(v: &T, spec: &str, loader: &str, prefix: &str, same: impl Fn(&T, &T) -> bool, same_eps: impl Fn(&T, &DeserType<'_, T>) -> bool) -> String
+where
+    T: Serialize + Deserialize,
+    for<'a> DeserType<'a, T>: Send + Sync,
+{
+    let _ = spec;
+    let bytes = match crate::ser_generic(v) {
+        Ok((n, b)) if n == b.len() => b,
+        Ok(_) => return "bigfile count -".into(),
+        Err(_) => return "bigfile ser-err -".into(),
+    };
+    let total = bytes.len();
+    // prefix: `-` (the whole stream), `<k>` (the first k bytes), `e<k>` (all but the last k bytes)
+    let keep = match prefix {
+        "-" => total,
+        p if p.starts_with('e') => total.saturating_sub(p[1..].parse().unwrap_or(0)),
+        p => p.parse::<usize>().unwrap_or(total).min(total),
+    };
+    let (l, bits) = match loader.split_once(':') {
+        Some((l, f)) => (l, f.parse::<u32>().unwrap_or(0)),
+        None => (loader, 0),
+    };
+    let e = |e: anyhow::Error| anyhow_err(&e);
+    let path = tmp_path("big");
+    let r: Option<Result<bool, String>> = crate::catch(|| match l {
+        "dfull" => T::deserialize_full(&mut std::io::Cursor::new(&bytes[..keep])).map(|x| same(v, &x)).map_err(|d| crate::err_string(&d)),
+        "deps" => {
+            let mut al = epserde::utils::AlignedCursor::<maligned::A64>::with_capacity(keep);
+            std::io::Write::write_all(&mut al, &bytes[..keep]).unwrap();
+            T::deserialize_eps(al.as_bytes()).map(|x| same_eps(v, &x)).map_err(|d| crate::err_string(&d))
+        }
+        _ => {
+            std::fs::write(&path, &bytes[..keep]).unwrap();
+            match l {
+                "full" => T::load_full(&path).map(|x| same(v, &x)).map_err(e),
+                "mem" => T::load_mem(&path).map(|c| same_eps(v, &*c) && c.verif_backend_range().map(|(a, n)| a % 64 == 0 && n >= keep).unwrap_or(false)).map_err(e),
+                #[cfg(feature = "mmap")]
+                "mmap" => T::load_mmap(&path, flags_of(bits)).map(|c| same_eps(v, &*c) && c.verif_backend_range().map(|(_, n)| n >= keep).unwrap_or(false)).map_err(e),
+                #[cfg(feature = "mmap")]
+                "map" => T::mmap(&path, flags_of(bits)).map(|c| same_eps(v, &*c) && c.verif_backend_range().map(|(_, n)| n == keep).unwrap_or(false)).map_err(e),
+                _ => Err("err badloader".into()),
+            }
+        }
+    });
+    let _ = bits;
+    let _ = std::fs::remove_file(&path);
+    match r {
+        None => "bigfile panic -".into(),
+        Some(Ok(true)) => "bigfile ok -".into(),
+        Some(Ok(false)) => "bigfile differs -".into(),
+        Some(Err(s)) => {
+            let t: Vec<&str> = s.split(' ').collect();
+            format!("bigfile {} {}", t.first().unwrap_or(&"err"), t.get(1).unwrap_or(&"-"))
+        }
+    }
+}
+
+/// `bigfile <kind> <n|L> <loader[:flags]> <prefix>`: kind `u8` / `u64` / `str`; `n<N>`: N items; `L<len>`: as many items as
+/// make the file `len` bytes long (rounded down to whole items)
+pub fn bigfile(kind: &str, spec: &str, loader: &str, prefix: &str) -> String {
+    let item = if kind == "u64" { 8 } else { 1 };
+    let n = if let Some(l) = spec.strip_prefix('L') {
+        let want: usize = l.parse().unwrap_or(0);
+        let overhead = match kind {
+            "u64" => crate::ser_generic(&Vec::<u64>::new()).map(|x| x.1.len()).unwrap_or(0) + 8,   // (the payload of u64 items is padded to 8: accounted below)
+            "str" => crate::ser_generic(&String::new()).map(|x| x.1.len()).unwrap_or(0),
+            _ => crate::ser_generic(&Vec::<u8>::new()).map(|x| x.1.len()).unwrap_or(0),
+        };
+        want.saturating_sub(overhead) / item
+    } else {
+        spec.trim_start_matches('n').parse::<usize>().unwrap_or(0)
+    };
+    match kind {
+        "u8" => {
+            let v: Vec<u8> = (0..n).map(|k| (k.wrapping_mul(7) % 251) as u8 | 1).collect();
+            big_one(&v, spec, loader, prefix, |a, b| a == b, |a, b| &a[..] == *b)
+        }
+        "u64" => {
+            let v: Vec<u64> = (0..n as u64).map(|k| k.wrapping_mul(0x9E3779B97F4A7C15) | 1).collect();
+            big_one(&v, spec, loader, prefix, |a, b| a == b, |a, b| &a[..] == *b)
+        }
+        "str" => {
+            let v: String = (0..n).map(|k| (b'a' + (k % 26) as u8) as char).collect();
+            big_one(&v, spec, loader, prefix, |a, b| a == b, |a, b| a.as_str() == *b)
+        }
+        _ => "bigfile badkind -".into(),
+    }
+}
+
 pub fn fload_generic<T>(bytes: &[u8], loader: &str) -> String
 where
     T: Deserialize,
